@@ -35,6 +35,7 @@ var c05Types = []c05Type{
 	{decl.TMapSI, [8]string{"ck:11", "cj:12", "ik:21", "ij:22", "ek:31", "ej:32", "dk:41", "dj:42"}, map[string]int{"nk": 50}},
 	{decl.TUpper, [8]string{"c1", "c2", "i1", "i2", "e1", "e2", "d1", "d2"}, decl.Upper{S: "N0"}},
 	{decl.TMapSS, [8]string{"k:c1", "k:c2", "k:i1", "k:i2", "k:e1", "k:e2", "k:d1", "k:d2"}, map[string]string{"k": "n0", "z": "n1"}},
+	{decl.TCSV, [8]string{"c1,cc", "c2", "i1,ii", "i2", "e1,ee", "e2", "d1,dd", "d2"}, decl.CSV{"n0", "n1"}},
 }
 
 var c05Histories = []string{"C", "IC", "DC", "CD", "DCD", "config-flag-before", "config-flag-after", "config-default-first", "config-default-last", "DD-C"}
@@ -68,13 +69,15 @@ func c05Get(ti int, initial bool, ndef int, envDelim bool, nest int, nsDelim int
 		o.Initial = ty.Initial
 	}
 	other := &decl.Opt{Field: "Other", Long: "other", Type: decl.TString, Defaults: []string{"od"}}
+	// a second slice option without any source; when Opt is a []string with an initial value, the program initialised both from one slice
+	alias := &decl.Opt{Field: "Alias", Long: "alias", Type: decl.TStrings}
 	cfg := &decl.Opt{Field: "Config", Long: "config", Type: decl.TFuncS}
 	top := &decl.Cmd{Name: "app"}
 	sect := "Application Options"
 	var ns []string
 	switch nest {
 	case 0:
-		top.Opts = []*decl.Opt{other, o}
+		top.Opts = []*decl.Opt{other, alias, o}
 	case 1:
 		top.Opts = []*decl.Opt{other}
 		top.Groups = []*decl.Group{{Field: "Outer", Name: "Outer", EnvNamespace: "OUT", Opts: []*decl.Opt{o}}}
@@ -278,6 +281,25 @@ func init() {
 			return
 		}
 		p := b.Parser
+		var aliasOpt *decl.Opt
+		if ty.T == decl.TStrings && initial && nest == 0 {
+			// both options start from the same backing array, with spare capacity (shared := base[:2] of a longer slice)
+			base := []string{"n0", "n1", "spare", "spare2"}
+			for _, oo := range cd.d.Top.Opts {
+				if oo.Field == "Alias" {
+					aliasOpt = oo
+					b.Vals[oo].Set(reflect.ValueOf(base[:2]))
+				}
+			}
+			b.Vals[cd.o].Set(reflect.ValueOf(base[:2]))
+			c.Hit("aliased-initial-slices")
+		}
+		sameIniParser := c.Deviate(2) == 1 // one IniParser object is used for every read of the history
+		var sharedIni *flags.IniParser
+		if sameIniParser {
+			sharedIni = flags.NewIniParser(p)
+			c.Hit("reused-ini-parser")
+		}
 		p.EnvNamespaceDelimiter = delim
 		if envSet {
 			os.Setenv(cd.envKey, envText)
@@ -285,6 +307,9 @@ func init() {
 		}
 		readIni := func(asDefaults bool) error {
 			ip := flags.NewIniParser(p)
+			if sharedIni != nil {
+				ip = sharedIni
+			}
 			ip.ParseAsDefaults = asDefaults
 			return ip.Parse(bytes.NewReader([]byte(iniText)))
 		}
@@ -345,6 +370,11 @@ func init() {
 			}
 			c.Fail(fmt.Sprintf("wrong-source|winner=%s(%s)|%s|history=%s", winner, nn, kind, hist), map[string]interface{}{"want": ref.Show(want), "got": ref.Show(got)})
 		}
+		if aliasOpt != nil {
+			if got := b.Vals[aliasOpt]; !ref.SameValue(reflect.ValueOf([]string{"n0", "n1"}), got) {
+				c.Fail("option-without-source-changed-through-shared-initial-slice|"+hist, ref.Show(got))
+			}
+		}
 		// the bystander keeps its default
 		for _, o := range cd.d.Top.AllOpts() {
 			if o.Field == "Other" && b.Vals[o].String() != "od" {
@@ -358,9 +388,9 @@ func init() {
 		ShardDepth: 3,
 		Body:       body,
 		DevBound:   func(bool) int { return 2 },
-		Rule: "9 option types (string, int, bool, *int, []string, []int, map[string]int, Unmarshaler, map[string]string with one key in every source) x initial value present/absent x 0..2 default tags x environment {unset, one value, two values with env-delim, set-but-empty} " +
+		Rule: "10 option types (string, int, bool, *int, []string, []int, map[string]int, Unmarshaler, map[string]string with one key in every source, a slice-kinded Unmarshaler that appends) x initial value present/absent x 0..2 default tags x environment {unset, one value, two values with env-delim, set-but-empty} " +
 			"x 0..2 INI entries x 0..2 command-line occurrences x 10 histories (CLI only; INI then CLI; as-defaults INI then CLI; CLI then as-defaults INI; as-defaults, CLI, as-defaults; as-defaults read from a callback option given before / after the occurrences; " +
-			"from a callback option's default declared first / last; two as-defaults reads then CLI) x env-namespace nesting {none, outer, outer+inner, outer only around a plain inner group, inner only inside a plain outer group} x EnvNamespaceDelimiter {_, empty, __} (nesting/delimiter deviation-bounded); " +
+			"from a callback option's default declared first / last; two as-defaults reads then CLI) x env-namespace nesting {none, outer, outer+inner, outer only around a plain inner group, inner only inside a plain outer group} x EnvNamespaceDelimiter {_, empty, __} (nesting/delimiter deviation-bounded); one more deviation uses a single IniParser object for all reads of a history; a second []string option initialised from the same backing array must keep its value; " +
 			"the history machine per option is {untouched, defaulted, ini, explicit}; oracle = precedence function CLI > INI > env > default tags > initial, multi-valued options holding exactly the winner's values",
 		Assumptions:  []string{"plain-mode INI read after a command-line parse is not ranked by the statement and is not exercised", "an empty environment value for a non-string option is skipped"},
 		RequiredHits: []string{"winner:cli", "winner:ini", "winner:env", "winner:default", "winner:initial", "history:CD", "history:DCD", "history:config-flag-after", "history:config-default-last"},
